@@ -112,6 +112,9 @@ def run_record(js, strategy, options=None, inject_at=None, tmpdir=None, reports=
         files["csv"] = [len(open(os.path.join(rdir, x)).read().splitlines()) for x in names if x.startswith("t") and x.endswith(".csv")]
         if "s.csv" in names:
             files["s.csv"] = len(open(os.path.join(rdir, "s.csv")).read().splitlines())
+        import csv as _csv
+        files["tables"] = {x: list(_csv.DictReader(open(os.path.join(rdir, x)))) for x in names if x.endswith(".csv")}
+        files["jsons"] = {x: json.load(open(os.path.join(rdir, x))) for x in names if x.endswith(".json")}
         shutil.rmtree(rdir, ignore_errors=True)
     r = {"strategy": strategy, "options": {k: v for k, v in (options or {}).items()}, "features": feats, "js": js,
          "raised": raised, "phase": "run" if rec.steps else "init", "reports": reports, "files": files, "inject_at": inject_at, "n_intervals": s.n_intervals, "steps": rec.steps,
